@@ -446,6 +446,9 @@ func c01DialOwner(c *Ctx) {
 			sf := shortFn(fn)
 			k := name + " in " + sf
 			netw, isConst := constString(arg(ci, 0))
+			if strings.Contains(name, ".Dialer).DialContext") {
+				netw, isConst = constString(arg(ci, 1)) // (ctx, network, address)
+			}
 			switch {
 			case sf == "(*cmd/rdpgw/protocol.Processor).Process" || c.onlyCalledFrom(fn, c.Fn("cmd/rdpgw/protocol", "Processor.Process"), 0):
 				c.OK(rule, k, ci.Pos(), "the backend dial of the packet loop (governed by C01/typestate, which inlines the loop's helpers)")
